@@ -757,6 +757,11 @@ fn observation(sc: &Scenario, seed: u64, out: &Outcome, data: RecData) -> String
     _ => {}
   }
   v.push(tagged("ev", data.ev));
+  if std::env::var_os("RXCONC_TRACE").is_some() {
+    for l in out.trace.iter() {
+      eprintln!("[trace] {}", l);
+    }
+  }
   if std::env::var_os("RXCONC_DEBUG").is_some() {
     for (tid, msg) in out.panics.iter() {
       eprintln!("[rxconc] seed {} panic in t{}: {}", seed, tid, msg);
@@ -782,7 +787,7 @@ fn run_scenario(x: &Sx, emit: &mut dyn FnMut(&str)) -> u64 {
     max_virtual_time: sc.max_vt_ns,
     replay,
     spurious_wakeups: sc.spurious,
-    trace: false,
+    trace: std::env::var_os("RXCONC_TRACE").is_some(),
     lockdep: sc.want_edges,
   };
   let mut n_obs = 0u64;
